@@ -117,6 +117,9 @@ type Sched struct {
 	fp        uint64 // trace fingerprint
 	Trace     []string
 	KeepTrace bool
+	// LockLog records every grant of a reader/writer lock (always on; used by
+	// the kqueue leak attribution, which needs to know when a task updated the tables).
+	LockLog []LockRec
 	// BeforeDecide is called by S before each decision (drains kernel queues).
 	BeforeDecide func()
 	// Weight returns the scheduling weight of a task (random policy).
@@ -136,6 +139,13 @@ type Sched struct {
 	now         int64   // simulated time (ns)
 	timers      []*simTimer
 	TimersFired int
+}
+
+// LockRec is one grant of a reader/writer lock.
+type LockRec struct {
+	Step int
+	Task int
+	Excl bool
 }
 
 // Policy parameters of the schedule chooser.
@@ -543,6 +553,9 @@ func (sc *Sched) grant(t *Task) []*Task {
 		r.GrantHook(r)
 	}
 	sc.hash(uint64(t.ID)<<32 | uint64(r.Kind)<<24 | uint64(sc.ord(r.Obj))<<8 | uint64(uint8(r.Chosen+1)))
+	if r.Label == "RWMutex.Lock" || r.Label == "RWMutex.RLock" {
+		sc.LockLog = append(sc.LockLog, LockRec{Step: sc.Steps, Task: t.ID, Excl: r.Label == "RWMutex.Lock"})
+	}
 	if sc.KeepTrace {
 		line := fmt.Sprintf("%d %s %s %s#%d c=%d", sc.Steps, t.Name, r.Kind, r.Label, sc.ord(r.Obj), r.Chosen)
 		if partner != nil {
